@@ -29,10 +29,14 @@ NOT_APPLICABLE = {
     'C20': 'behaviour of derive-generated serde code and serde_json; no function of ipp.rs to put under contract',
 }
 PENDING = {
-    'C01': 'not yet claimed: value-level encoder and decoder are under contract (see C03/C02); the message-level round-trip lemma is not built yet',
 }
 
 LEVEL_TEXT = {
+    'C01': 'Deductive proof in three verified layers: (1) the real encoder functions equal the RFC-derived encoding specification '
+           '(value, attribute, attribute section, header); (2) lemma_message_roundtrip — proved in Verus by structural induction over sets, '
+           'nested collections, attributes and groups — shows that the RFC machine reads any such encoding followed by any payload as exactly '
+           'the emitted groups (each name bound to its value, one-element sets identified with their element) and leaves exactly the payload; '
+           '(3) the real parsers return exactly what the machine reads. Holds for every message in the stated domain, unbounded in size and depth.',
     'C02': 'Deductive proof (Verus) on the real functions, woven in place: value decoder, both readers, parser state machine and both '
            'drive loops have NO precondition, so every callee precondition (Buf::get_*/advance, slice ranges, Vec::remove, arithmetic '
            'overflow) is proved for every tag byte and every length; the drive loops terminate (decreases = bytes left). Kani '
